@@ -14,11 +14,11 @@ assign to them or call methods on them, and the fields of the property's struct 
 a pure function of the arguments and of these fields; a new variable, writer or field is state the
 model does not know of. The digest-valued `shape:` entry covers everything the call graph
 (resolved by go/types) reaches from the functions declared in the property's anchor files: per
-function, method (with receiver kind), package variable and constant, its numeric literals, the
+function, method (with receiver kind), package variable and constant, its numeric literals, its comparison operators, the
 package variables it reads and its writes through parameters or the receiver (including in-place
 `sort.*`/`copy`/`append`). The entries behind the digest are in `shape_expected.txt` and in a
 comment of the generated file. -/
-def stateC15 : List (String × String) := [("globals:fit", ""), ("globalwrites:fit", ""), ("fields:fit.PolynomialRegressionResult", "Coefficients:[]float64 F:func(xfloat64)float64"), ("fields:fit.pairSlice", "xs:[]float64 ys:[]float64"), ("shape:C15", "n=7 fnv64a=3b17868e204dba59")]
+def stateC15 : List (String × String) := [("globals:fit", ""), ("globalwrites:fit", ""), ("fields:fit.PolynomialRegressionResult", "Coefficients:[]float64 F:func(xfloat64)float64"), ("fields:fit.pairSlice", "xs:[]float64 ys:[]float64"), ("shape:C15", "n=7 fnv64a=b3b3b2d247c5fe2a")]
 
 /-- the source has exactly the package-level variables, writers and struct fields the model accounts for -/
 theorem state_C15 : holdsAll stateC15 = true := by decide +kernel
